@@ -272,8 +272,9 @@ impl Flat {
                 let probs: Vec<f64> = if total.is_finite() {
                     outs.iter().map(|(w, _)| w / total).collect()
                 } else {
-                    let t2: f64 = outs.iter().map(|(w, _)| w / 4.0).sum();
-                    outs.iter().map(|(w, _)| (w / 4.0) / t2).collect()
+                    let down = 2.0 * outs.len() as f64;
+                    let t2: f64 = outs.iter().map(|(w, _)| w / down).sum();
+                    outs.iter().map(|(w, _)| (w / down) / t2).collect()
                 };
                 // single-outcome chance nodes never share (cfr drops them before looking at
                 // their infoset); give them a private id
